@@ -1167,7 +1167,7 @@ buildCommand(BuildContext& context, ninja::Command* command) {
       // If it is legal to simply update the command, then if the command output
       // exists and is newer than all of the inputs, don't actually run the
       // command (just bring it up-to-date).
-      if (canUpdateIfNewer) {
+      if (canUpdateIfNewer && !shouldSkip) {
         // If this isn't a generator command and its command hash differs, we
         // can't update it.
         if (!command->hasGeneratorFlag() &&
